@@ -138,6 +138,17 @@ def count_obligations(vfiles):
     return n
 
 
+def built_files(vfiles):
+    """the files of the cone whose .vo is present and not older than the source"""
+    out = []
+    for f in vfiles:
+        v = os.path.join(COQ, f)
+        vo = v + 'o'
+        if os.path.exists(vo) and os.path.exists(v) and os.path.getmtime(vo) >= os.path.getmtime(v):
+            out.append(f)
+    return out
+
+
 def dependency_cone(prop_file):
     """transitive .v dependencies (inside coq/) of a props file, via coqdep."""
     seen, todo = [], [prop_file]
